@@ -1,8 +1,8 @@
 """C01 — soil water mass balance closes on every simulated day (DESIGN.md §6 C01)."""
 from core import Corr, Fail
-from props import waterlib
+from props import waterlib, daywlib
 
-PROP_FILES = ["Prop_C01"]
+PROP_FILES = ["Prop_C01", "Prop_C01b"]
 RULE = ("synthetic Water states (1-20 layers, horizons, stones, drain depth/fraction, groundwater depth, five moisture "
         "regimes, infiltration 0-25 cm/d, evaporation, zero flux, sub-step lengths 1..1/93, first and later sub-steps) "
         "and traced transitions of real runs; a case is non-trivial when distinct (inputs hash) and some flux is non-zero")
@@ -51,6 +51,9 @@ def correspond(ctx):
         hist[d["steps"]] = hist.get(d["steps"], 0) + 1
     ctx.extra["substep_histogram"] = {str(k): hist[k] for k in sorted(hist)}
     ctx.extra["max_abs_day_residual"] = max([abs(d["res"]) for d in days if not d["excluded"]] or [0.0])
+    # whole-day tie: run.go's glue + Evatra's structural part + sub-step choice + k Water sub-steps composed (DayWaterModel)
+    if ctx.id == "C01":
+        daywlib.correspond_day(ctx, c)
     seen = set()
     for cs in cases:
         i = cs["in"]
@@ -77,6 +80,8 @@ def oracle(ctx, search):
     trc, tcases, torc, terr = waterlib.run_trace(ctx)
     if trc != 0:
         fails.append(Fail(key="trace-crash", what="traced run aborted", stderr=terr[-800:]))
-    for l in oracle_lines + [t for t in torc if t.startswith(("day-water-balance", "substeps-cover-day", "water-balance"))]:
+    for l in oracle_lines + [t for t in torc if t.startswith(("day-water-balance", "substeps-cover-day", "water-balance", "day-boundary-storage"))]:
         fails.append(Fail(key=l.split(" residual=")[0][:90], what=l))
+    if ctx.id == "C01":
+        fails += daywlib.oracle_day(ctx) or []
     return fails
